@@ -298,6 +298,77 @@ Fixpoint strip_nl (s : str) : str :=
       if N.eqb x NL && is_nil t' then [] else x :: t'
   end.
 
+(* The output of the command is bytes; expand_common turns it into text with
+   String::from_utf8, falling back to String::from_utf8_lossy: every maximal
+   invalid byte sequence (as delimited by core::str::Utf8Chunks) becomes one
+   U+FFFD.  On valid UTF-8 this is plain decoding. *)
+Local Open Scope N_scope.
+Definition REPL : N := 65533.
+Definition is_cont (b : N) : bool := (128 <=? b) && (b <=? 191).
+Definition second3 (b c : N) : bool :=
+  ((b =? 224) && (160 <=? c) && (c <=? 191))
+  || ((225 <=? b) && (b <=? 236) && is_cont c)
+  || ((b =? 237) && (128 <=? c) && (c <=? 159))
+  || ((238 <=? b) && (b <=? 239) && is_cont c).
+Definition second4 (b c : N) : bool :=
+  ((b =? 240) && (144 <=? c) && (c <=? 191))
+  || ((241 <=? b) && (b <=? 243) && is_cont c)
+  || ((b =? 244) && (128 <=? c) && (c <=? 143)).
+
+Fixpoint utf8_lossy (l : list N) : list N :=
+  match l with
+  | [] => []
+  | b :: t =>
+      if b <? 128 then b :: utf8_lossy t
+      else if (194 <=? b) && (b <=? 223) then
+        match t with
+        | c :: t1 =>
+            if is_cont c then ((b - 192) * 64 + (c - 128)) :: utf8_lossy t1
+            else REPL :: utf8_lossy t
+        | [] => [REPL]
+        end
+      else if (224 <=? b) && (b <=? 239) then
+        match t with
+        | c :: t1 =>
+            if second3 b c then
+              match t1 with
+              | d :: t2 =>
+                  if is_cont d
+                  then ((b - 224) * 4096 + (c - 128) * 64 + (d - 128)) :: utf8_lossy t2
+                  else REPL :: utf8_lossy t1
+              | [] => [REPL]
+              end
+            else REPL :: utf8_lossy t
+        | [] => [REPL]
+        end
+      else if (240 <=? b) && (b <=? 244) then
+        match t with
+        | c :: t1 =>
+            if second4 b c then
+              match t1 with
+              | d :: t2 =>
+                  if is_cont d then
+                    match t2 with
+                    | e :: t3 =>
+                        if is_cont e
+                        then ((b - 240) * 262144 + (c - 128) * 4096 + (d - 128) * 64 + (e - 128))
+                               :: utf8_lossy t3
+                        else REPL :: utf8_lossy t2
+                    | [] => [REPL]
+                    end
+                  else REPL :: utf8_lossy t1
+              | [] => [REPL]
+              end
+            else REPL :: utf8_lossy t
+        | [] => [REPL]
+        end
+      else REPL :: utf8_lossy t
+  end.
+Local Close Scope N_scope.
+
+(* the value of a command substitution whose command wrote [bytes] *)
+Definition subst_value (bytes : list N) : str := strip_nl (utf8_lossy bytes).
+
 (* ------------------------------------------------------------------------ *)
 (* Here-documents: the content is written to an anonymous regular file, the
    offset is reset with lseek, and the command reads the file.
